@@ -9,7 +9,7 @@ import itertools
 from lib import *
 
 FORMS = ['bare', '=', '>', '>=', '<', '<=', '~', '~>', '^']
-TAGS_R = [(), ('0',), ('a',), ('a', '1'), ('rc', '2'), ('beta',)]
+TAGS_R = [(), ('0',), ('a',), ('a', '1'), ('rc', '2'), ('beta',), ('a-',), ('-',)]
 
 def all_partials(nums, tags=TAGS_R, builds=((),)):
     parts = []
@@ -44,6 +44,10 @@ def r_partial(part, sp):
     if sp.pick(0.1): s += 'v' + sp.blanks(0, 1)
     s += '.'.join(sp.wild() if c == 'x' else sp.num(c) for c in xs)
     full = len(xs) == 3 and all(c != 'x' for c in xs)
+    if len(xs) == 3 and not full and not tag and not build and sp.pick(0.25):
+        # a qualifier after a wildcard patch (or after an earlier wildcard) is accepted and ignored: 1.2.x-alpha, 1.x.3+b, 1.2.*rc
+        tag = sp.rng.choice([('alpha',), ('0',), ('rc', '1'), ()]); build = sp.rng.choice([(), (), ('b7',)])
+        if xs[2] == 'x' and tag and sp.pick(0.3): s += '.'.join(tag); tag = ()
     if tag and (full or sp.pick(0.5)):
         # the hyphen may be omitted when the tag starts with a letter (1.2.3alpha)
         if sp.pick(0.15) and tag[0][0].isalpha(): s += '.'.join(tag)
